@@ -7,7 +7,7 @@ package generation
 // linearity with the mg/L -> kg/m3 factor 1e-3, zero load for a zero driver.
 
 //@ func emcDWC(quickflow, slowflow, emc, dwc, quickLoad, slowLoad, totalLoad)
-//@   locals nDays, idx, i, qf, sf, ql, sl, total
+//@   locals nDays, idx, i@loop, qf, sf, ql, sl, total
 //@   kernel
 //@   states none
 //@   noalias
@@ -22,7 +22,7 @@ package generation
 //@   loop 0 invariant forall(t, 0, i, quickLoad.at(t) == quickflow.at(t)*emc*0.001 && slowLoad.at(t) == slowflow.at(t)*dwc*0.001)
 
 //@ func fixedConcentration(flow, conc, load)
-//@   locals nDays, idx, i, f, l
+//@   locals nDays, idx, i@loop, f, l
 //@   kernel
 //@   states none
 //@   noalias
@@ -35,7 +35,7 @@ package generation
 //@   loop 0 invariant forall(t, 0, i, load.at(t) == flow.at(t)*conc*0.001)
 
 //@ func passLoadIfFlow(flow, inputLoad, scalingFactor, outputLoad)
-//@   locals n, idx, day, f, l
+//@   locals n, idx, day@loop, f, l
 //@   kernel
 //@   states none
 //@   noalias
@@ -48,7 +48,7 @@ package generation
 //@   loop 0 invariant forall(t, 0, day, outputLoad.at(t) == ite(flow.at(t) > 0.00000001, inputLoad.at(t)*scalingFactor, 0.0))
 
 //@ func dissolvedNutrients(quickflow, slowflow, dissConst_EMC, dissConst_DWC, quickflowConstituent, slowflowConstituent, totalLoad)
-//@   locals n, idx, day, DailyConstituent_EMC_mgL, cumecs_to_lpd, Quickflow_Litres, Slowflow_Litres, dissolvedConstituent_Quickflow_Load_kg, dissolvedConstituent_Slowflow_Load_kg
+//@   locals n, idx, day@loop, DailyConstituent_EMC_mgL, cumecs_to_lpd, Quickflow_Litres, Slowflow_Litres, dissolvedConstituent_Quickflow_Load_kg, dissolvedConstituent_Slowflow_Load_kg
 //@   kernel
 //@   states none
 //@   noalias
@@ -60,7 +60,7 @@ package generation
 //@   loop 0 step [C16.dissolved-linear] quickflowConstituent.at(day) == dissConst_EMC*quickflow.at(day)*0.001 && slowflowConstituent.at(day) == dissConst_DWC*slowflow.at(day)*0.001
 
 //@ func particulateNutrients(fineSheet, coarseSheet, fineGully, coarseGully, slowflow, area, nutSurfSoilConc, hillDeliveryRatio, enrichment, nutSubSoilConc, enrichmentGully, gullyDeliveryRatio, nutrientDWC, doCreams, quickflowConstituent, slowflowConstituent, totalLoad, hillslopeContribution, gullyContribution)
-//@   locals n, idx, day, Gully_Particulate_load_kg, Hillslope_Particulate_load_kg, Total_Particulate_load_kg, Hillslope_ErosionLoad_kg, Gully_ErosionLoad_kg, quickLoad, slowLoad
+//@   locals n, idx, day@loop, Gully_Particulate_load_kg, Hillslope_Particulate_load_kg, Total_Particulate_load_kg, Hillslope_ErosionLoad_kg, Gully_ErosionLoad_kg, quickLoad, slowLoad
 //@   kernel
 //@   states none
 //@   noalias
@@ -75,7 +75,7 @@ package generation
 //@   loop 0 step [C16.particulate-slow] slowflowConstituent.at(day) == slowflow.at(day)*nutrientDWC*0.001
 
 //@ func bankErosion(downstreamFlowVolume, totalVolume, riparianVegPercent, maxRiparianVegEffectiveness, soilErodibility, bankErosionCoeff, linkSlope, bankFullFlow, bankMgtFactor, sedBulkDensity, bankHeight, linkLength, dailyFlowPowerFactor, longTermAvDailyFlow, soilPercentFine, durationInSeconds, bankErosionFine, bankErosionCoarse)
-//@   locals idx, n, meanAnnual, i, LinkDischargeFactor, outflow, BankErosion_TperDay, BankErosionTotal_kg_per_Second, bankErosionFine_Kg_per_Second, bankErosionCoarse_Kg_per_Second
+//@   locals idx, n, meanAnnual, i@loop, LinkDischargeFactor, outflow, BankErosion_TperDay, BankErosionTotal_kg_per_Second, bankErosionFine_Kg_per_Second, bankErosionCoarse_Kg_per_Second
 //@   kernel
 //@   states none
 //@   noalias
@@ -91,7 +91,7 @@ package generation
 //@   loop 0 step [C16.bank-nonneg] bankErosionFine.at(i) >= 0 && bankErosionCoarse.at(i) >= 0
 
 //@ func sednetGully(quickflow, year, annualRunoff_ts, annualLoad_ts, yearDisturbance, gullyEndYear, area, averageGullyActivityFactor, annualAverageSedimentSupply, percentFine, managementPracticeFactor, longtermRunoffFactor, dailyRunoffPowerFactor, sdrFine, sdrCoarse, timestepInSeconds, fineLoad, coarseLoad, generatedFine, generatedCoarse, calc)
-//@   locals n, idx, propFine, day, yr, annualLoad, annualRunoff, runoffRate, activityFactor, generated_gully_load_kg_fine, generated_gully_load_kg_coarse
+//@   locals n, idx, propFine, day@loop, yr, annualLoad, annualRunoff, runoffRate, activityFactor, generated_gully_load_kg_fine, generated_gully_load_kg_coarse
 //@   kernel
 //@   states none
 //@   noalias
@@ -106,7 +106,7 @@ package generation
 //@   loop 0 step [C16.gully-zero-driver] implies(quickflow.at(day) == 0 || annualRunoff_ts.at(day) == 0 || year.at(day) < yearDisturbance, fineLoad.at(day) == 0 && coarseLoad.at(day) == 0)
 
 //@ func usleFine(quickflow, slowflow, rainfall, klsc, klscFine, covOrCFact, dayOfYear, s, p, rainThreshold, alpha, beta, eta, a1, a2, a3, dwc, avK, avLS, avFines, area, maxConc, usleHSDRFine, usleHSDRCoarse, timeStepInSeconds, quickLoadFine, slowLoadFine, quickLoadCoarse, slowLoadCoarse, totalFineLoad, totalCoarseLoad, generatedLoadFine, generatedLoadCoarse)
-//@   locals n, idx, day, doy, rain, qf, sf, cFactor, loadS, loadQ, theKLSCval, theKLSCClayval, useAvModel, scanlon_ToY_Term, R, USLE_soilEroded_Tons_per_Ha_per_Day_Total, USLE_soilEroded_Tons_per_Ha_per_Day_Fine, USLE_soilEroded_Tons_per_Ha_per_Day_Coarse, theRateForAssignmentTotal, theRateForAssignmentFine, theRateForAssignmentCoarse, USLE_Daily_Load_kg_Fine, USLE_Daily_Load_kg_Coarse, USLE_Daily_Load_kg_after_HSDR_applied_Fine, USLE_Daily_Load_kg_after_HSDR_applied_Coarse, currentFineSedMassKg, Sediment_Conc_mg_per_L_Fine, allowedFineSedMassKg, concPropAdj, coarseQuick
+//@   locals n, idx, day@loop, doy, rain, qf, sf, cFactor, loadS, loadQ, theKLSCval, theKLSCClayval, useAvModel, scanlon_ToY_Term, R, USLE_soilEroded_Tons_per_Ha_per_Day_Total, USLE_soilEroded_Tons_per_Ha_per_Day_Fine, USLE_soilEroded_Tons_per_Ha_per_Day_Coarse, theRateForAssignmentTotal, theRateForAssignmentFine, theRateForAssignmentCoarse, USLE_Daily_Load_kg_Fine, USLE_Daily_Load_kg_Coarse, USLE_Daily_Load_kg_after_HSDR_applied_Fine, USLE_Daily_Load_kg_after_HSDR_applied_Coarse, currentFineSedMassKg, Sediment_Conc_mg_per_L_Fine, allowedFineSedMassKg, concPropAdj, coarseQuick
 //@   kernel
 //@   states none
 //@   noalias
